@@ -2,7 +2,7 @@ use std::sync::{Arc, Mutex};
 
 use thiserror::Error;
 
-use super::{ControlStreamsConcurrency, Dir, Role, StreamId};
+use super::{ControlStreamsConcurrency, Dir, MAX_STREAMS_LIMIT, Role, StreamId};
 use crate::{
     frame::{
         MaxStreamsFrame, StreamsBlockedFrame,
@@ -137,11 +137,18 @@ where
             StreamsBlockedFrame::Uni(max) => (Dir::Uni, max.into_u64()),
         };
         if let Some(max_streams) = self.ctrl.on_streams_blocked(dir, max_streams) {
-            self.max[dir as usize] = max_streams;
-            self.max_tx.send_frame([MaxStreamsFrame::with(
-                dir,
-                VarInt::from_u64(max_streams).expect("max_streams must be less than VARINT_MAX"),
-            )]);
+            // The value in a STREAMS_BLOCKED frame is chosen by the peer and may be stale or
+            // retransmitted: never advertise more streams than can exist, and never take back a
+            // limit that was already advertised (RFC 9000 §4.6).
+            let max_streams = max_streams.min(MAX_STREAMS_LIMIT);
+            if max_streams > self.max[dir as usize] {
+                self.max[dir as usize] = max_streams;
+                self.max_tx.send_frame([MaxStreamsFrame::with(
+                    dir,
+                    VarInt::from_u64(max_streams)
+                        .expect("max_streams must be less than VARINT_MAX"),
+                )]);
+            }
         }
     }
 }
